@@ -84,8 +84,8 @@ def wire_classifier(an, n, argvals, env):
                 return Ex(ev(("B", w, ANY, {"to_le_bytes": "LE", "to_be_bytes": "BE", "to_ne_bytes": "NE"}[meth]))), None
         if v is not None and v[0] == "bytes":
             return Ex(ev(("A", len(v[1]), v[1]))), None
-        if v is not None and v[0] == "rawslice":
-            t = subst_ty(v[1], tsub) if v[1] else "?"
+        if v is not None and v[0] == "rawslice" and v[1]:
+            t = subst_ty(v[1], tsub)
             return Ex(ev(("RAW1" if v[2] else "BULK", t))), None
         if v is not None and v[0] == "region":
             return Ex(ev(("REGION",) + tuple(v[1:]))), None
@@ -96,8 +96,8 @@ def wire_classifier(an, n, argvals, env):
     if c == "std::io::Read::read_exact":
         a = peel(n["args"][1])
         v = argvals[1]
-        if v is not None and v[0] == "rawslice":
-            t = subst_ty(v[1], tsub) if v[1] else "?"
+        if v is not None and v[0] == "rawslice" and v[1]:
+            t = subst_ty(v[1], tsub)
             return Ex(ev(("RAW1" if v[2] else "BULK", t))), None
         n_ = arr_len(n["args"][1].get("ty")) or arr_len(a.get("ty"))
         if n_ == 1 and a.get("k") == "Var":
